@@ -405,10 +405,53 @@ def group_average_case(ctx: Ctx, name, ops, D, in_sig, out_sig, dims, kind, flag
     return fails, inner_defect
 
 
+def group_average_stateful(ctx: Ctx, name, ops, D, in_sig, out_sig, dims):
+    """an inner model that READS and UPDATES the auxiliary state it is handed (plain pytree state): every group
+    element has to be evaluated with the state the wrapper was called with, so that the sum over the group stays
+    symmetric and the wrapper equivariant for that state"""
+    import jax.numpy as jnp
+
+    import ginjax.models as models
+
+    rng = ctx.rng
+    base = make_int_model(rng, D, in_sig, out_sig, "callable")
+
+    def inner(x, aux_data=None):
+        out, _ = base(x, None)
+        s = aux_data
+        return type(out)({k: v * s + s for k, v in out.items()}, out.D, out.is_torus), s + 1.0
+
+    ops_l = [np.asarray(ops[i]) for i in rng.permutation(len(ops))]
+    wrapper = models.GroupAverage(inner, ops_l, always_average=True)
+    xd = rand_input(rng, D, in_sig, dims)
+    s0 = jnp.float32(2.0)
+    case = {"wrapper": "GroupAverage", "inner": "stateful (reads and updates aux_data)", "group": name,
+            "operators": [g.tolist() for g in ops_l], "D": D, "in_signature": in_sig, "out_signature": out_sig,
+            "dims": list(dims), "x": show(xd), "aux_data": 2.0}
+    ctx.case(("GA-stateful", name, [g.tolist() for g in ops_l], in_sig, out_sig, list(dims), show(xd)), len(ops_l) > 1)
+    ctx.hist("ga_group", name + " (stateful inner model)")
+    try:
+        wx = frac_of_mi(wrapper(to_mi(xd, D), s0)[0])
+        for g in ops_l:
+            lhs = frac_of_mi(wrapper(to_mi(refs.act_dict(xd, D, g), D), s0)[0])
+            rhs = {k: refs.act_block(v, D, k[0], k[1], g) for k, v in wx.items()}
+            if not dict_eq(lhs, rhs):
+                ctx.violation("oracle", f"GroupAverage over {name} around a stateful inner model is not equivariant for the "
+                                        "state it was called with: wrapper(g.x, s) != g.wrapper(x, s)",
+                              dict(case, g=np.asarray(g).tolist()))
+                return
+    except Exception as e:  # noqa: BLE001
+        ctx.violation("oracle", "GroupAverage raised on a stateful inner model with plain-pytree state",
+                      dict(case, raised=f"{type(e).__name__}: {str(e)[:200]}"))
+
+
 def group_average_checks(ctx: Ctx):
     rng = ctx.rng
     quick = ctx.tier == "quick"
     g2 = groups_for(2, ctx.tier)
+    for gname, dims in (("B_2", (3, 3)), ("C4", (2, 2)), ("C2^2", (2, 3))):
+        if gname in g2:
+            group_average_stateful(ctx, gname, g2[gname], 2, SIGS_2D[0][0], SIGS_2D[0][1], dims)
     plan = []  # (name, ops, D, sigs, dims)
     reps = 2 if quick else 4
     for name, ops in g2.items():
@@ -628,6 +671,21 @@ def climate_call_case(ctx: Ctx, order, nx, ny, past, future, chans, const, out_o
         eq_ok = False
     else:
         eq_ok = True
+    # the same wrapper declared for another boundary structure of its output (doubly periodic / regional domain):
+    # the equator reflection is the same reflection
+    import ginjax.geometric as geom_
+    tor = [(True, True), (False, False)][(nx + ny + past + len(order)) % 2]
+    m_t = models.Climate1D(inner, geom_.Signature(tuple(out_keys)), past, future, (nx, ny), dict(const), output_is_torus=tor)
+    try:
+        a2 = as_frac_dict(m_t(x)[0], 2)
+        b2 = as_frac_dict(m_t(to_mi(fx, 2, (True, False)))[0], 2)
+        ctx.hist("cl_call_output_is_torus", str(tor))
+        if a2 is None or b2 is None or not dict_eq(b2, refs.act_dict(a2, 2, EQFLIP)):
+            ctx.violation("oracle", f"Climate1D wrapper with output_is_torus={tor} does not commute with the equator reflection",
+                          dict(case, output_is_torus=list(tor)))
+    except Exception as e:  # noqa: BLE001
+        ctx.violation("oracle", f"Climate1D wrapper with output_is_torus={tor} raised",
+                      dict(case, output_is_torus=list(tor), raised=f"{type(e).__name__}: {str(e)[:200]}"))
     # how non-equivariant is F = from1d . inner . to1d on its own?
     f_x = as_int_dict(m.from1d(inner(m.to1d(x))[0]))
     f_fx = as_int_dict(m.from1d(inner(m.to1d(to_mi(fx, 2, (True, False))))[0]))
